@@ -367,7 +367,7 @@ struct Run : public BuildEngineDelegate, public basic::ExecutionQueueDelegate {
   std::string attachError;
 
   // state
-  RefEval ref;
+  RefEval ref, refCore;
   bool refDirty = true;
   std::map<std::string, KeyShadow> mem;
   std::map<std::string, DbRow> dbv, dbCommitted;
@@ -480,12 +480,22 @@ struct Run : public BuildEngineDelegate, public basic::ExecutionQueueDelegate {
     }
   }
 
-  EvalResult evalRef(int id) {
+  void refreshRef() {
     if (refDirty) {
       ref.reset(&prog, &ext);
+      refCore.reset(&prog, &ext);
+      refCore.skipSingleUse = true;
       refDirty = false;
     }
+  }
+  EvalResult evalRef(int id) {
+    refreshRef();
     return ref.eval(id);
+  }
+  // evaluation that does not follow single-use requests (see RefEval::skipSingleUse)
+  EvalResult evalCore(int id) {
+    refreshRef();
+    return refCore.eval(id);
   }
 
   bool ruleSync(const RuleSpec& r) const { return forceSync || (buildNo <= syncBeforeBuild) || r.mode == 0; }
@@ -881,7 +891,7 @@ void SimTask::provideValue(TaskInterface ti, uintptr_t inputID, const KeyType& k
   else if (it->second == FOLLOW)
     run->viol("C06.2", "value delivered for must-follow key " + util::printable(key.str()));
   if (target) {
-    EvalResult e = run->evalRef(k);
+    EvalResult e = run->evalCore(k);
     if (!e.cyclic && e.value != v)
       run->viol(run->anyCancelEver && run->property == "C05" ? "C05.5" : "C01.2",
                 "task " + util::printable(st->key) + " was handed a stale value for input " + util::printable(key.str()) + ": got " +
@@ -1253,25 +1263,27 @@ void Run::afterBuild(const ValueType& result) {
     viol(cancelIssued ? "C05.3" : "C06.2", std::to_string(strayQueue) + " execution-queue thread(s) still alive after build() returned");
 
   bool success = !failedRun && !got.empty();
+  EvalResult core = evalCore(targetId);
   if (!cancelIssued && !failedRun && got.empty())
     viol(e.cyclic ? "C07.2" : "C01.1",
          "build of " + util::printable(targetKey) + " returned the empty (failure) value without a cycle report, error or cancellation");
   s.ok = success;
   bool afterCancel = anyCancelEver && property == "C05";
   if (success) {
-    if (e.cyclic) {
+    if (core.cyclic) {
       viol("C07.2", "build of " + util::printable(targetKey) + " succeeded although computing it requires a dependency cycle");
-    } else if (got != e.value) {
+    } else if (got != core.value) {
       viol(afterCancel ? "C05.5" : "C01.1", "build " + std::to_string(buildNo) + " of " + util::printable(targetKey) + " returned " +
-                                                 util::printable(got) + " but a from-scratch build computes " + util::printable(e.value));
+                                                 util::printable(got) + " but a from-scratch build computes " + util::printable(core.value));
     }
+    if (e.cyclic && !core.cyclic) ctr()["probe_single_use_only_cycle_not_traversed"]++;
     ctr()["builds_ok"]++;
   } else if (cycleReported) {
     ctr()["builds_cycle"]++;
   } else if (errorReported) {
     ctr()["builds_error"]++;
   }
-  if (e.cyclic && !cycleReported && !cancelIssued && !errorReported)
+  if (core.cyclic && !cycleReported && !cancelIssued && !errorReported)
     viol("C07.2", "computing " + util::printable(targetKey) + " requires a cycle, but the build neither reported one nor failed");
   if (e.cyclic) ctr()["targets_cyclic"]++;
 
